@@ -28,8 +28,8 @@ func TestCheck(t *testing.T) {
 		r.Rule("(1) util.GetShardID vs a written-out FNV-1a/32 on random byte strings (empty, NUL, UTF-8, up to 4 KiB, near-collisions) x N in [1,65536] (small N over-sampled): in range, repeatable, equal; " +
 			"(2) gateway side: the real clientsets.NewClientSetsWithRestConfig against K real limiter servers (real rateLimiter + real HTTP dispatcher, scripted leader tables naming the servers' URLs): " +
 			"ShardIDFor == (1) and every allocate (PUT .../status) / acquire (POST .../acquire) for random upstream names arrives at the server the table names for the shard; then one (thorough: several) leadership move(s), " +
-			"requests may reach the old or the new leader until the first arrival at the new one, afterwards only the new one; then the fleet is re-deployed behind the same URLs with a larger and then a smaller shard count " +
-			"(thorough: more): once never-seen probe names show the new N and every new shard's leader, every name looked up under the old N must map by FNV-1a/32 mod the NEW N and arrive at that shard's leader; " +
+			"requests may reach the old or the new leader until every gateway has completed a sync that started after the move (second server-info request since then has arrived), afterwards only the new one; then the fleet is re-deployed behind the same URLs with a larger and then a smaller shard count " +
+			"(thorough: more): once every gateway has completed a sync after the re-deployment, every name looked up under the old N must map by FNV-1a/32 mod the NEW N and arrive at that shard's leader; " +
 			"(2b) a second gateway against a fleet whose published leader table is sparse, as the real ServerInfo() builds it (only shards with an elector entry, sorted by ShardID; entries with an empty leader): at start-up, after a move with all shards led, " +
 			"and during a fail-over gap; judged once two further server-info requests have arrived: a published shard's calls arrive exactly at its leader, a leaderless shard's calls fail, go nowhere or go to a server once published for that same shard; " +
 			"(3) server side: random histories of gain / loss (callback and table-only + leaderCheck) per shard interleaved with UpdateRateLimitConditionStatus / DoAcquire / cluster add-update-delete / cleanupUnknownCondition " +
@@ -46,6 +46,7 @@ func TestCheck(t *testing.T) {
 			"(4) k8s store over the generated fake clientset: Save of a foreign-shard condition refused (nothing written to the API or kept locally), Load keeps only own-shard conditions. " +
 			"Non-trivial = names/histories that exercise a refusal or a leadership change; distinct = hash of the name+N resp. of the history trace.")
 		r.Assume("between an election loss and the next leaderCheck the lost shard's store still exists; removing things from it (cleanup passes) is conforming (the statement demands the discard), writing into it is not")
+		installPerturbingSink() // the log sink of this process (logs are discarded) doubles as a schedule point, see takeover.go
 		var wg sync.WaitGroup
 		wg.Add(1)
 		gwRng := r.Rng.Fork("gateway")
@@ -122,6 +123,7 @@ func TestCheck(t *testing.T) {
 		r.Require(r.Counter("gw_moves_converged") >= 1, "gateway side saw no leadership move converge")
 		r.Require(r.Counter("gw_odd_names_judged") >= 50 && r.Counter("gw_second_gateway_names_judged") >= 100 && r.Counter("gw_shard_count_one") >= 1, "gateway side: odd names / second gateway / single-shard fleet were not exercised")
 		r.Require(r.Counter("gw_shard_count_grows") >= 1 && r.Counter("gw_shard_count_shrinks") >= 1 && r.Counter("gw_shard_count_changes_converged") >= 2, "gateway side did not see the fleet's shard count grow and shrink")
+		r.Require(r.Counter("gw_sparse_handover_of_known_shard") >= 1, "gateway side (sparse tables): no hand-over of a shard with a known leader")
 		r.Require(r.Counter("gw_sparse_calls_for_unreachable_leader") >= 10, "gateway side: no call was made for a shard whose leader is unreachable")
 		r.Require(r.Counter("gw_sparse_phases") >= 4 && r.Counter("gw_sparse_published_judged") >= 100 && r.Counter("gw_sparse_unpublished_judged") >= 10, "gateway side: sparse leader tables were not exercised")
 		r.Require(r.Counter("real_elector_scenarios") >= 1 && r.Counter("real_elector_checks_lease-expired") >= 20 && r.Counter("real_elector_checks_lease-held-by-other") >= 10, "the real-elector scenario did not complete")
